@@ -11,5 +11,6 @@ CONSTANTS
   DEV_DirNotCreated = FALSE
   DEV_CreateThroughLink = FALSE
   DEV_AbsInside = TRUE
+  DEV_DirThroughLink = FALSE
   DEV_LinkRawName = FALSE
 CHECK_DEADLOCK FALSE
